@@ -125,8 +125,8 @@ def opsBackends (op : String) (j : Json) : Option (Except String Json) :=
       let ch : Channel := match j.getObjVal? "channel" with
         | .ok (.str "path") => .path (getStrD j "stem" "data") (getStrD j "suffix" "")
         | .ok (.str "bytes") => .bytes
-        | .ok (.str "bytesio") => .bytesIO
-        | .ok (.str "file") => .file
+        | .ok (.str "bytesio") => .bytesIO (getNatD j "pos" 0)
+        | .ok (.str "file") => .file (getNatD j "pos" 0)
         | _ => .text
       match getXlsform (fun _ _ => .error .readError) ch t (ftOfJson j "file_type") with
       | .ok (b, stem) => pure (Json.mkObj [("outcome", "ok"), ("book", bookJson b), ("stem", optStrJson stem)])
